@@ -233,8 +233,48 @@ def _graph(b):
     return top
 
 
+def _ordered_alternatives(b):
+    """LessThan(Max(alternatives of one task with DIFFERENT run times, the long one first), Max(a task that must start
+    right after one of the short, late alternatives)): what the pruning passes have to reason about when they turn
+    'must end by X' into 'must start by X - duration'."""
+    rng = b.rng
+    g = b.o["grid"]
+    parts = _parts(b)
+    n = _amount(b, parts)
+    b.ntask += 1
+    name_a = f"t{b.ntask}"
+    base = max(0, (b.spec["now"] // g) * g + g * rng.randint(-1, 2))
+    ma = b.add({"type": "max", "name": f"{name_a}_max"})
+    long_d = g * rng.randint(3, 5)
+    alts = [(base, long_d)]
+    t = base + g * rng.randint(1, 4)
+    for _ in range(rng.randint(1, 2)):
+        alts.append((t, g * rng.randint(1, 2)))
+        t += g * rng.randint(1, 3)
+    for (st, d) in alts:
+        b.options += 1
+        b.edge(ma, b.add({"type": "choose", "name": name_a, "parts": parts, "n": n, "start": st, "dur": d, "util": _util(b)}))
+    b.ntask += 1
+    name_b = f"t{b.ntask}"
+    mb = b.add({"type": "max", "name": f"{name_b}_max"})
+    anchor = rng.choice(alts[1:])
+    for k in range(rng.randint(1, 2)):
+        b.options += 1
+        b.edge(mb, b.add({"type": "choose", "name": name_b, "parts": parts, "n": n, "start": anchor[0] + anchor[1] + g * rng.randint(0, 1) + g * k,
+                          "dur": g * rng.randint(1, 2), "util": _util(b)}))
+    lt = b.add({"type": "lessthan", "name": f"lt{len(b.spec['nodes'])}"})
+    b.edge(lt, ma)
+    b.edge(lt, mb)
+    return lt
+
+
 def _composite(b, depth):
     rng = b.rng
+    if b.o.get("p_ordered_alternatives") and depth >= 1 and rng.random() < b.o["p_ordered_alternatives"] \
+            and b.options < b.o["max_options"] - 2:
+        n = _ordered_alternatives(b)
+        b.composites.append(n)
+        return n
     if depth >= 2 and b.options < b.o["max_options"] - 1 and rng.random() < b.o["share"]:
         return _graph(b)
     if depth <= 0 or b.options >= b.o["max_options"] or rng.random() < 0.4:
@@ -303,6 +343,7 @@ def gen_spec(seed_parts, cls="plain"):
         # more tasks with alternatives
         opts["p_other_strategy"] = 0.6
         kinds["max"] = 7
+        opts["p_ordered_alternatives"] = 0.3
     b = _B(rng, spec, opts)
     root = b.add({"type": "objective", "name": "obj"})
     seen = set()
